@@ -20,7 +20,7 @@ CLAIMED = {
          "Round-robin/fixed/tree-leader: n in 1..64, views 0..1024 (4096 thorough) plus 64 views around 2^32, 2^63 and 2^64-1, on every replica's own instance, incl. the bijection over any n consecutive views. Carousel: every head signer set >= quorum x last-f proposers x 3 seeds x 6 views around the activation point for n in {4,7}; reputation: all head sequences of length 2 (3 thorough), two instances compared.",
          "Carousel/reputation signer sets are structurally valid quorums (validity of the signatures is C02's subject); windows crossing the uint64 wrap are excluded.", "§4 C16"),
  "C14": ("seqmc+schedmc", "exhaustive operation-sequence enumeration on the real queue / EventLoop against a reference deque and FIFO/once/priority/deferral invariants; preemption-bounded schedule enumeration for concurrent producers",
-         "Queue: every push/pop sequence of length <= 2c+4 for capacities 1..4 (6 thorough) against a drop-oldest deque. EventLoop: every operation sequence to depth 6 (7 thorough) over 15 operations (add, defer, register plain/priority/run-in-add/adding/unregistering handlers, unregister incl. stale double calls, tick) on capacities 64 and 2; overflow reports compared with the oldest pending events.",
+         "Queue: every push/pop sequence of length <= 2c+4 for capacities 1..4 (6 thorough) against a drop-oldest deque. EventLoop: every operation sequence to depth 6 (7 thorough) over 15 operations (add, defer, register plain/priority/run-in-add/adding/unregistering handlers, unregister incl. stale double calls, tick) on capacities 64 and 2; overflow reports compared with the oldest pending events. Concurrent: 2-3 producers, the consumer in Run and a canceller under the controlled scheduler, <=2 (3) preemptions, incl. overflow at capacity 2.",
          "Handler order inside one priority class and handlers (un)registered during the dispatch of the same event are unspecified by the property and treated as don't-care.", "§4 C14"),
  "C08": ("seqmc", "explicit-state search over timeout-message sequences on a real wired Synchronizer (successor = replay on a fresh replica + 1 message), canonical-state merging, oracle = per-view set of correctly signed senders",
          "All sequences over an alphabet of 15-25 timeout messages (every sender x views {v0-1,v0,v0+1,v0+50}, own local timeout, relayed / wrong-view / unsigned view signatures, garbage / absent message signatures and missing QC under the aggregate rule, sync info carrying a TC) delivered to one real replica: unmerged to depth 3 (4) and with canonical-state merging to depth 5-7 (7-9 thorough), both timeout rules, replica at and ahead of the stale view, cache on/off, n=4 (n=7 thorough). Every emitted certificate is verified by all other replicas and fed to a fresh replica.",
@@ -48,7 +48,7 @@ CLAIMED = {
          "Messages enter at the gorums service implementation, not at a socket; TLS identity is replaced by connection metadata; panics are located by their innermost repository frame.", "§4 C10"),
  "C09": ("seqmc", "exhaustive enumeration of message arrival orders at a real vote collector (clique leader and Kauri tree node) against a reference count of distinct valid voters",
          "Clique: every permutation of {proposal, 1..3 honest votes} plus every subset of <=2 (3 thorough) of 9 hostile votes (duplicate, forged, other-block, two-signer, own-signature-twice, non-member, unknown block, old block, relabelled) delivered to a fresh replica that is next leader, n=4, EdDSA and ECDSA (n=7 thorough); votes before the proposal take the deferred path. Kauri: every sequence up to length 4 (5) of child contributions {full aggregate, partial, other-block, wrong view, no signature, overlapping} with the aggregation timer at every position, root and interior node, n=4 (7). Every emitted QC / contribution is verified by another replica.",
-         "Asynchronous verification is explored separately under the controlled scheduler (schedmc) when built; BLS is not used here.", "§4 C09"),
+         "Asynchronous verification (one goroutine per vote) is explored under the controlled scheduler for 4 (5) delivery orders with <=1 (2) preemptions; BLS is not used here.", "§4 C09"),
  "C01": ("clustermc", "explicit-state search over the closed system of real replicas (deviation-bounded + full interleavings at small horizon), invariant monitors on every transition",
          "%s Oracle: per replica the committed sequence is a hash-linked chain from genesis with increasing views and no repeats, any two honest replicas' sequences are prefix-related, CommittedBlock equals the last commit." % E1TEXT, E1NOTE, "§2, §4 C01"),
  "C03": ("clustermc", "explicit-state search over the closed system of real replicas; monitor on every signing event of every honest replica (ground truth under the signing primitive)",
@@ -60,6 +60,9 @@ CLAIMED = {
          "%s Oracle: one ExecuteEvent per committed block in chain order, the application count and digest are explained by executing the committed commands once in order, no (client, seq) twice, executed sequences of honest replicas prefix-related." % E1TEXT, E1NOTE + " Waiting ExecCommand callers are not modelled (outcomes are checked through count/digest only).", "§2, §4 C06"),
  "C07": ("clustermc", "explicit-state search over the closed system of real replicas; monotonicity and evidence monitors on every transition against the ground truth of real signatures",
          "%s Oracle: view, high QC view (and its block's view), high TC view and committed view never decrease; every view increment is signalled by a consecutive ViewChangeEvent and is justified by a ground-truth quorum of votes (block of view >= v) or timeouts (view >= v); every new high QC / high TC is backed by real signatures." % E1TEXT, E1NOTE, "§2, §4 C07"),
+ "C15": ("schedmc", "exhaustive operation-sequence enumeration and preemption-bounded schedule enumeration of the real CommandCache under a controlled cooperative scheduler (sync/select/go rewritten mechanically), list+mark reference model",
+         "(a) every sequence to depth 5 (6 thorough) over {add(c,s) for 2 clients x 3 sequence numbers, proposed(c,s), get} for batch sizes 1..3, a blocked Get being a scheduler-visible state that must end exactly when the reference has a full batch (or on cancellation); (b) five concurrent scenarios (2 adders, marker, 1-2 getters, canceller): every schedule with <=2 (3) preemptions; oracle: full batches of distinct accepted commands in per-client order, nothing twice, nothing lost, no lost wake-up.",
+         "Scheduling points are the lock, select and go operations of the rewritten files; unsynchronised accesses are outside this check (the repository's own race-detector tests cover them).", "§3, §4 C15"),
 }
 PENDING = {}  # id -> reason (properties not claimed)
 
